@@ -39,7 +39,12 @@ def main():
         own = det.get(prop, [])
         others = sorted(k for k in det if k != prop)
         print(f"{name:8s} own={'YES' if prop in det else 'no ':3s} {', '.join(own)[:110]}  others={others}")
-    json.dump(results, open("/verif/seeded/RESULTS.json", "w"), indent=1, sort_keys=True)
+    if only and os.path.exists("/verif/seeded/RESULTS.json"):
+        merged = json.load(open("/verif/seeded/RESULTS.json"))
+        merged.update(results)
+    else:
+        merged = results
+    json.dump(merged, open("/verif/seeded/RESULTS.json", "w"), indent=1, sort_keys=True)
     n = len(results); k = sum(1 for v in results.values() if v.get("detected_by_own_property"))
     a = sum(1 for v in results.values() if v.get("detected_by"))
     print(f"{k}/{n} detected by the check of the property they were written against; {a}/{n} by some check")
